@@ -101,13 +101,34 @@ def build_lib(variant, quiet=True):
     open(stamp, "w").write(key)
     return lib
 
-def build_exe(variant, out, sources, extra=(), link_lib=True, std="c++17", opt="-O2"):
+def build_specmodel():
+    """The independent reference model: never sees /repo headers."""
+    sm = os.path.join(VERIF, "src", "specmodel")
+    out = os.path.join(BUILD, "specmodel"); os.makedirs(out, exist_ok=True)
+    srcs = sorted(f for f in os.listdir(sm) if f.endswith(".cpp") and f != "selftest.cpp")
+    h = hashlib.sha256()
+    for f in sorted(os.listdir(sm)): h.update(open(os.path.join(sm, f), "rb").read())
+    lib = os.path.join(out, "libspecmodel.a"); stamp = os.path.join(out, "stamp")
+    if os.path.exists(stamp) and open(stamp).read() == h.hexdigest() and os.path.exists(lib): return lib
+    objs = []; jobs = []
+    for f in srcs:
+        o = os.path.join(out, f + ".o"); objs.append(o)
+        jobs.append(["g++", "-c", "-O2", "-std=c++17", "-frounding-math", os.path.join(sm, f), "-o", o])
+    with cf.ThreadPoolExecutor(8) as ex: list(ex.map(run, jobs))
+    if os.path.exists(lib): os.remove(lib)
+    run(["ar", "rcs", lib] + objs)
+    open(stamp, "w").write(h.hexdigest())
+    return lib
+
+def build_exe(variant, out, sources, extra=(), link_lib=True, std="c++17", opt="-O2", specmodel=False):
     """Harness executables: compiled with -fno-access-control against the variant's library."""
     d = parse_variant(variant)
     cc, cxx = compilers(d)
     os.makedirs(os.path.dirname(out), exist_ok=True)
     libs = [build_lib(variant)] if link_lib else []
+    smlib = [build_specmodel()] if specmodel else []
     h = hashlib.sha256()
+    if smlib: h.update(open(os.path.join(BUILD, "specmodel", "stamp"), "rb").read())
     for s in list(sources) + [os.path.join(VERIF, "src", "common", f) for f in sorted(os.listdir(os.path.join(VERIF, "src", "common")))]:
         h.update(open(s, "rb").read())
     flags = [opt, "-std=" + std, "-maes", "-fno-access-control", "-I", SRC, "-I", os.path.join(VERIF, "src"), "-DNDEBUG"] + defines(d) + san_flags(d) + list(extra)
@@ -116,7 +137,7 @@ def build_exe(variant, out, sources, extra=(), link_lib=True, std="c++17", opt="
     stamp = out + ".stamp"
     if os.path.exists(stamp) and open(stamp).read() == key and os.path.exists(out):
         return out
-    run([cxx] + flags + list(sources) + libs + ["-o", out, "-lpthread"])
+    run([cxx] + flags + list(sources) + libs + smlib + ["-o", out, "-lpthread"])
     open(stamp, "w").write(key)
     return out
 
